@@ -68,6 +68,10 @@ package gortsplib
 //@   opt inline=0
 //@   opt sole-writer=ServerSession.state
 //@   requires req != nil && sc != nil
+// C17, no downgrade inside a session: when the application is asked to accept a SETUP for a session
+// that already has a transport, the requested transport has the SAME protocol AND the same profile
+// (a session set up with RTP/SAVP never gets a second media over plain RTP/AVP).
+//@   assert[C17]@call:OnSetup ss.setuppedTransport != nil ==> ss.setuppedTransport.Profile == inTH.Profile && ss.setuppedTransport.Protocol == protocol
 //@   assert[C02]@store:state#1 old(req.Method) == base.Announce && old(ss.state) == ServerSessionStateInitial
 //@   assert[C02]@store:state#2 old(req.Method) == base.Setup && old(ss.state) == ServerSessionStateInitial
 //@   assert[C02]@store:state#3 old(req.Method) == base.Play && old(ss.state) == ServerSessionStatePrePlay
@@ -269,9 +273,23 @@ package gortsplib
 
 // Building the key-management message of a media only reads the SRTP context and writes new
 // objects (frame used where descForDescribe calls it inside its loop over the medias).
+// C17, key management towards the peer: the MIKEY message carries, for every SSRC of the context
+// and in the same order, that SSRC's OWN roll-over counter (rocof(ctx, ssrc): what ctx.roc answers,
+// asked while the message is built). A counter taken from another SSRC makes the peer derive the
+// wrong packet index and fail authentication once that stream has wrapped.
+//@ ufun rocof(c *wrappedSRTPContext, ssrc uint32) uint32
+//@ func (ctx *wrappedSRTPContext) roc
+//@   defines rocof(ctx, ssrc)
+//@   modifies nothing
 //@ func contextToMikey
 //@   opt frame-tag=C20
+//@   requires ctx != nil
+//@   ensures[C17] err == nil ==> ret != nil && len(ret.Header.CSIDMapInfo) == len(ctx.ssrcs)
+//@   ensures[C17] err == nil ==> forall j :: 0 <= j && j < len(ctx.ssrcs) ==> ret.Header.CSIDMapInfo[j].SSRC == ctx.ssrcs[j] && ret.Header.CSIDMapInfo[j].ROC == rocof(ctx, ctx.ssrcs[j])
 //@   modifies fresh
+//@   loop 1
+//@     invariant n == _i && 0 <= _i && _i <= len(ctx.ssrcs) && msg != nil && fresh(msg) && len(msg.Header.CSIDMapInfo) == len(ctx.ssrcs) && fresh(msg.Header.CSIDMapInfo)
+//@     invariant forall j :: 0 <= j && j < _i ==> msg.Header.CSIDMapInfo[j].SSRC == ctx.ssrcs[j] && msg.Header.CSIDMapInfo[j].ROC == rocof(ctx, ctx.ssrcs[j])
 
 // --- C19: session lookup by id ---------------------------------------------------------------
 // A session handed to a connection is either the one just created for it (the connection is its
